@@ -1,24 +1,47 @@
 //! Scenario families, one per claimed property (DESIGN §7).
 
 use crate::gen::*;
-use crate::model::*;
 use crate::prng::{self, Rng};
 use crate::runner::Scenario;
 
-pub mod common;
+pub mod c01;
+pub mod c03;
+pub mod c04;
+pub mod c05;
+pub mod c07;
 pub mod c09;
+pub mod c10;
+pub mod c11;
+pub mod c13;
+pub mod c14;
+pub mod c15;
+pub mod common;
 
 pub fn run_rng(ctx: &GenCtx, property: &str, run: u64) -> Rng {
     Rng::new(prng::mix(&[ctx.verif_seed, prng::str_hash(property), run]))
 }
 
 pub fn all() -> Vec<&'static Scenario> {
-    vec![&c09::SCENARIO]
+    vec![
+        &c01::C01,
+        &c01::C02,
+        &c03::SCENARIO,
+        &c04::SCENARIO,
+        &c05::C05,
+        &c05::C06,
+        &c07::SCENARIO,
+        &c09::SCENARIO,
+        &c10::SCENARIO,
+        &c11::C11,
+        &c11::C12,
+        &c13::C13,
+        &c13::C17,
+        &c14::SCENARIO,
+        &c15::C15,
+        &c15::C16,
+    ]
 }
 
 pub fn lookup(p: &str) -> Option<&'static Scenario> {
     all().into_iter().find(|s| s.property == p)
 }
-
-#[allow(unused_imports)]
-use {BOp as _, Layer as _};
